@@ -5,7 +5,10 @@
 //  B  end to end through RequestImpl + MainLoop::decodeRequest on a real MessageMap that holds one
 //     read, one write and one passive message per level name: every small ACL (default entry from
 //     the ACL "*" row / from --accesslevel / absent, one user with secret) x authentication state x
-//     message level x command form; plus the listing forms and the data sink filter.
+//     message level x command form x PRIOR HISTORY on the same MainLoop (nothing / the message was just
+//     seen on the bus / seen longer ago than the default max age / an authorised other client just read
+//     or wrote it / the same client was refused just before); plus the listing forms (without and with
+//     cached data on every message) and the data sink filter.
 // Reference RefLevels is written from the property statement (token membership), not from
 // message.cpp.
 #include <algorithm>
@@ -166,9 +169,13 @@ static bool inPollQueue(Ctx* c, Message* m) {
   return false;
 }
 static const char* AUTHS[] = {"none", "ok", "bad", "nosecret", "unknown"};
-static const char* FORMS[] = {"readname", "readcached", "readcirc", "readhex", "readpoll", "writecirc", "writehex",
-                              "httpname", "httppoll", "findname"};
-static const char* SETFORMS[] = {"findall", "findw", "httpall", "sink"};
+static const char* FORMS[] = {"readname", "readcirc", "readforce", "readmaxage", "readhex", "readhexforce", "readpoll",
+                              "writecirc", "writehex", "httpname", "httpcached", "httpmaxage", "httppoll",
+                              "findname", "finddata", "findhex"};
+// what happened to the addressed message on the same MainLoop before the judged request
+static const char* HISTS[] = {"none", "fresh", "stale", "authread", "denied"};
+static const char* SETFORMS[] = {"findall", "findw", "finddata", "httpall", "sink"};
+static const char* SETHISTS[] = {"none", "fresh"};
 
 static string authQuery(const string& auth) {
   if (auth == "ok") return "user=u&secret=s";
@@ -209,12 +216,53 @@ static set<string> namesInJson(const string& body, const Ctx* c) {
 }
 static string join(const set<string>& s) { string o; for (auto& x : s) o += (o.empty() ? "" : " ") + x; return o.empty() ? "-" : o; }
 
+// the message is seen on the bus (telegram of another master, passive reception path of BusHandler):
+// afterwards it holds cached data with the value `cacheByte`
+static void busUpdate(Ctx* c, size_t mi, bool write) {
+  string ii = two(mi + 1);
+  MasterSymbolString m;
+  SlaveSymbolString s;
+  if (write) { m.parseHex("1008b509030e" + ii + two(mi + 101)); s.parseHex("00"); }
+  else { m.parseHex("1008b509020d" + ii); s.parseHex("01" + two(mi + 101)); }
+  c->w->busHandler->notifyProtocolMessage(md_recv, m, s);
+  Message* msg = write ? c->wr[mi] : c->rd[mi];
+  if (msg->getLastUpdateTime() != g_now) { fprintf(stderr, "fixture: bus update did not reach message %zu\n", mi); exit(3); }
+}
+struct FormReq { bool http = false; string line; };
+// the request text of a form
+static FormReq requestOf(const string& form, size_t mi, const string& auth) {
+  FormReq q;
+  string ii = two(mi + 1), m = msgName('m', mi), w = msgName('w', mi);
+  if (form == "readname") q.line = "read " + m;
+  else if (form == "readcirc") q.line = "read -c c " + m;
+  else if (form == "readforce") q.line = "read -f -c c " + m;
+  else if (form == "readmaxage") q.line = "read -m 86400 " + m;
+  else if (form == "readhex") q.line = "read -h 08b509020d" + ii;
+  else if (form == "readhexforce") q.line = "read -f -h 08b509020d" + ii;
+  else if (form == "readpoll") q.line = "read -p 2 -c c " + m;
+  else if (form == "writecirc") q.line = "write -c c " + w + " 7";
+  else if (form == "writehex") q.line = "write -h 08b509030e" + ii + "07";
+  else if (form == "findname") q.line = "find " + m;
+  else if (form == "finddata") q.line = "find -d " + m;
+  else if (form == "findhex") q.line = "find -d -h " + m;
+  else {
+    q.http = true;
+    string aq = authQuery(auth);
+    string opt = form == "httpname" ? "&required" : form == "httpmaxage" ? "&maxage=60" : form == "httppoll" ? "&poll=3" : "";
+    q.line = "/data/c/" + m + "?exact=1" + opt + (aq.empty() ? "" : "&" + aq);
+  }
+  return q;
+}
+
 // one per-message case.  returns "" if fine, else the rule that fired; log gets the observation.
-static string runCase(Ctx* c, const Acl& a, const string& auth, size_t mi, const string& form, string* log) {
+static string runCase(Ctx* c, const Acl& a, const string& auth, size_t mi, const string& form, const string& hist, string* log) {
   applyAcl(c, a);
   resetState(c);
   const string level = c->d.levels[mi];
-  bool http = form.compare(0, 4, "http") == 0;
+  FormReq q = requestOf(form, mi, auth);
+  if (q.line.empty()) return "unknown-form";
+  bool http = q.http;
+  bool isWrite = form.compare(0, 5, "write") == 0;
   string eff = auth == "ok" ? a.U : effDefault(a);
   bool granted = refGranted(level, eff);
   // HTTP with credentials that do not authenticate may be refused altogether (403) or fall back
@@ -222,113 +270,144 @@ static string runCase(Ctx* c, const Acl& a, const string& auth, size_t mi, const
   bool mayRefuse = http && auth != "none" && auth != "ok";
   Message* rm = c->rd[mi];
   Message* wm = c->wr[mi];
+  Message* tm = isWrite ? wm : rm;
   string ii = two(mi + 1);
-  string value = std::to_string(mi + 1);
+  string busValue = std::to_string(mi + 1), cacheValue = std::to_string(mi + 101);
+  string busHex = "01" + ii, cacheHex = "01" + two(mi + 101);
   string user;
   if (log) {
     *log += "default levels (" + a.dsrc + "): \"" + effDefault(a) + "\"; user u levels: \"" + a.U + "\"; auth=" + auth +
-            "; message level \"" + level + "\"; form=" + form + "\n";
+            "; message level \"" + level + "\"; form=" + form + "; history=" + hist + "\n";
     *log += string("reference: effective list \"") + eff + "\" -> " + (granted ? "GRANTED" : "DENIED") + "\n";
   }
-  if (!http && !tcpAuth(c, auth, &user, log)) return "auth-user";
-  c->w->protocol->sent.clear();
-  string rule;
-  Reply r;
-  string line;
-  vector<string> wantSent;
-  if (form == "readname" || form == "readcached" || form == "readcirc" || form == "readpoll") {
-    if (form == "readcached") {
-      // the value is in the cache (received by polling / another client) and still fresh
-      MasterSymbolString m; m.parseHex("3108b509020d" + ii);
-      SlaveSymbolString s; s.parseHex("01" + ii);
-      rm->storeLastData(m, s);
+  // ---- prior history on the same MainLoop -------------------------------------------------------------
+  if (hist == "fresh" || hist == "stale") {
+    busUpdate(c, mi, isWrite);
+    if (hist == "stale") g_now += 400;  // older than the default max age of 300 s
+    if (log) *log += string("  history: message seen on the bus with value ") + cacheValue + (hist == "stale" ? ", 400 s ago\n" : ", just now\n");
+  } else if (hist == "authread") {
+    // another session that holds the level reads / writes the message; if no principal of this ACL holds
+    // the level, the data comes from the bus instead
+    string other;
+    bool viaU = refGranted(level, a.U), viaDefault = refGranted(level, effDefault(a));
+    if (viaU || viaDefault) {
+      if (viaU) tcp(c->w, "auth u s", &other);
+      Reply pr = tcp(c->w, isWrite ? "write -c c " + msgName('w', mi) + " 9" : "read -f -c c " + msgName('m', mi), &other);
+      if (pr.ret != RESULT_OK || tm->getLastUpdateTime() != g_now) return "history-authorised-access-failed";
+      if (log) *log += "  history: session of " + string(viaU ? "user u" : "an anonymous client") + " (holds the level) accessed the message: " + esc(pr.text) + "\n";
+    } else {
+      busUpdate(c, mi, isWrite);
+      if (log) *log += "  history: no principal of this ACL holds the level; message seen on the bus with value " + cacheValue + "\n";
     }
-    line = form == "readname" || form == "readcached" ? "read " + msgName('m', mi)
-         : form == "readcirc" ? "read -f -c c " + msgName('m', mi) : "read -p 2 -c c " + msgName('m', mi);
-    r = tcp(c->w, line, &user);
-    wantSent = {"S:3108b509020d" + ii};
+  }
+  if (!http && !tcpAuth(c, auth, &user, log)) return "auth-user";
+  if (hist == "denied") {
+    // the same client tried the same request just before
+    Reply pr = http ? httpGet(c->w, q.line) : tcp(c->w, q.line, &user);
+    if (log) *log += "  history: the same request just before: " + (http ? "status " + std::to_string(httpStatus(pr.text)) : string(getResultCode(pr.ret))) + "\n";
+  }
+  c->w->protocol->sent.clear();
+  bool hadData = tm->getLastUpdateTime() != 0;
+  time_t lastUpBefore = tm->getLastUpdateTime();
+  size_t prioBefore = rm->getPollPriority();
+  bool queuedBefore = inPollQueue(c, rm);
+  string slaveBefore = hexOf(tm->getLastSlaveData()), masterBefore = hexOf(tm->getLastMasterData());
+  // ---- the judged request -----------------------------------------------------------------------------
+  string rule;
+  Reply r = http ? httpGet(c->w, q.line) : tcp(c->w, q.line, &user);
+  const vector<string>& sent = c->w->protocol->sent;
+  vector<string> wantSent = {isWrite ? "S:3108b509030e" + ii + "07" : "S:3108b509020d" + ii};
+  bool sentOk = sent.empty() || sent == wantSent;
+  bool stateTouched = tm->getLastUpdateTime() != lastUpBefore || hexOf(tm->getLastSlaveData()) != slaveBefore || hexOf(tm->getLastMasterData()) != masterBefore;
+  bool pollTouched = rm->getPollPriority() != prioBefore || inPollQueue(c, rm) != queuedBefore;
+  bool forced = form == "readforce" || form == "readhexforce";
+  // a denied request that is answered although nothing went to the bus was answered from stored data
+  auto deniedAnswered = [&]() { return string(sent.empty() && hadData ? "denied-answered-from-cache" : "denied-answered"); };
+  if (!http && form.compare(0, 4, "read") == 0) {
+    bool hex = form == "readhex" || form == "readhexforce";
+    const string& vb = hex ? busHex : busValue;
+    const string& vc = hex ? cacheHex : cacheValue;
     if (granted) {
-      if (r.ret != RESULT_OK || r.text != value) rule = "granted-refused";
-      else if (form == "readcached" ? (!c->w->protocol->sent.empty() && c->w->protocol->sent != wantSent)
-                                     : c->w->protocol->sent != wantSent) rule = "granted-wrong-telegram";
+      if (r.ret != RESULT_OK || (r.text != vb && r.text != vc)) rule = "granted-refused";
+      else if (!sentOk || ((forced || !hadData) && sent != wantSent)) rule = "granted-wrong-telegram";
+      else if (sent.empty() && r.text == vb && hist != "authread" && hist != "denied") rule = "granted-wrong-value";
       else if (form == "readpoll" && (rm->getPollPriority() != 2 || !inPollQueue(c, rm))) rule = "granted-poll-not-set";
     } else {
-      if (!isDenied(r.ret)) rule = "denied-answered";
-      else if (!c->w->protocol->sent.empty()) rule = "denied-bus-access";
-      else if (rm->getPollPriority() != 0 || inPollQueue(c, rm)) rule = "denied-poll-set";
+      if (!isDenied(r.ret)) rule = deniedAnswered();
+      else if (r.text.find(vb) != string::npos || r.text.find(vc) != string::npos) rule = "denied-value-leaked";
+      else if (!sent.empty()) rule = "denied-bus-access";
+      else if (pollTouched) rule = "denied-poll-set";
+      else if (stateTouched) rule = "denied-state-changed";
     }
-  } else if (form == "readhex") {
-    line = "read -f -h 08b509020d" + ii;
-    r = tcp(c->w, line, &user);
-    wantSent = {"S:3108b509020d" + ii};
-    if (granted) {
-      if (r.ret != RESULT_OK || r.text != "01" + ii) rule = "granted-refused";
-      else if (c->w->protocol->sent != wantSent) rule = "granted-wrong-telegram";
-    } else {
-      if (!isDenied(r.ret)) rule = "denied-answered";
-      else if (!c->w->protocol->sent.empty()) rule = "denied-bus-access";
-    }
-  } else if (form == "writecirc" || form == "writehex") {
-    line = form == "writecirc" ? "write -c c " + msgName('w', mi) + " 7" : "write -h 08b509030e" + ii + "07";
-    r = tcp(c->w, line, &user);
-    wantSent = {"S:3108b509030e" + ii + "07"};
+  } else if (isWrite) {
     if (granted) {
       if (r.ret != RESULT_OK) rule = "granted-refused";
-      else if (c->w->protocol->sent != wantSent) rule = "granted-wrong-telegram";
+      else if (sent != wantSent) rule = "granted-wrong-telegram";
     } else {
-      if (!isDenied(r.ret)) rule = "denied-answered";
-      else if (!c->w->protocol->sent.empty()) rule = "denied-bus-access";
-      else if (wm->getLastUpdateTime() != 0) rule = "denied-state-changed";
+      if (!isDenied(r.ret)) rule = deniedAnswered();
+      else if (!sent.empty()) rule = "denied-bus-access";
+      else if (stateTouched) rule = "denied-state-changed";
     }
-  } else if (form == "findname") {
-    line = "find " + msgName('m', mi);
-    r = tcp(c->w, line, &user);
+  } else if (!http) {  // find forms
     bool listed = namesInFind(r.text).count(msgName('m', mi)) > 0;
-    if (granted ? !listed : (listed || !isDenied(r.ret))) rule = granted ? "granted-refused" : "denied-answered";
-    if (!c->w->protocol->sent.empty()) rule = "find-bus-access";
-  } else if (form == "httpname" || form == "httppoll") {
-    string q = authQuery(auth);
-    line = "/data/c/" + msgName('m', mi) + "?exact=1&" + (form == "httpname" ? "required" : "poll=3") + (q.empty() ? "" : "&" + q);
-    r = httpGet(c->w, line);
+    bool needData = form != "findname";
+    if (granted) {
+      if ((!needData || hadData) && !listed) rule = "granted-refused";
+      else if (listed && hadData && form != "findhex" && r.text.find("= " + cacheValue) == string::npos && r.text.find("= " + busValue) == string::npos) rule = "granted-wrong-value";
+    } else {
+      if (listed || (!isDenied(r.ret) && r.ret != RESULT_OK)) rule = deniedAnswered();
+      else if (r.ret == RESULT_OK && !r.raw.empty() && r.text.compare(0, 6, "usage:") != 0) rule = deniedAnswered();
+      else if (r.text.find(cacheHex) != string::npos || r.text.find(busHex) != string::npos) rule = "denied-value-leaked";
+    }
+    if (rule.empty() && !sent.empty()) rule = "find-bus-access";
+    if (rule.empty() && (stateTouched || pollTouched)) rule = "find-state-changed";
+  } else {
     int st = httpStatus(r.text);
     string body = httpBody(r.text);
     bool listed = body.find("\"" + msgName('m', mi) + "\"") != string::npos;
-    wantSent = {"S:3108b509020d" + ii};
     bool refused = st == 403 || st == 401;
+    bool valueShown = body.find("\"value\": " + busValue + "}") != string::npos || body.find("\"value\": " + cacheValue + "}") != string::npos;
     if (granted && !(mayRefuse && refused)) {
       if (st != 200 || !listed) rule = "granted-refused";
-      else if (form == "httpname" && (c->w->protocol->sent != wantSent || body.find("\"value\": " + value) == string::npos)) rule = "granted-wrong-telegram";
+      else if (!sentOk) rule = "granted-wrong-telegram";
+      else if (form == "httpname" && !hadData && (sent != wantSent || !valueShown)) rule = "granted-wrong-telegram";
+      else if (form == "httpmaxage" && (!hadData || hist == "stale") && (sent != wantSent || !valueShown)) rule = "granted-wrong-telegram";
+      else if (hadData && !valueShown) rule = "granted-wrong-value";
       else if (form == "httppoll" && (rm->getPollPriority() != 3 || !inPollQueue(c, rm))) rule = "granted-poll-not-set";
     } else {
-      if (listed) rule = "denied-answered";
-      else if (!c->w->protocol->sent.empty()) rule = "denied-bus-access";
-      else if (rm->getPollPriority() != 0 || inPollQueue(c, rm)) rule = "denied-poll-set";
+      if (listed || valueShown) rule = deniedAnswered();
+      else if (!sent.empty()) rule = "denied-bus-access";
+      else if (pollTouched) rule = "denied-poll-set";
+      else if (stateTouched) rule = "denied-state-changed";
       else if (!mayRefuse && !granted && st != 200 && st != 403 && st != 404) rule = "denied-status";
     }
-    if (log) *log += "  > GET " + line + "\n  < status " + std::to_string(st) + (listed ? ", message listed" : ", message not listed") + "\n";
-  } else {
-    return "unknown-form";
+    if (log) *log += "  > GET " + q.line + "\n  < status " + std::to_string(st) + (listed ? ", message listed" : ", message not listed") +
+                     (valueShown ? ", value shown" : ", no value") + "\n";
   }
   if (log) {
-    if (!http) *log += "  > " + line + "\n  < " + getResultCode(r.ret) + " / " + esc(r.text.substr(0, 120)) + "\n";
+    if (!http) *log += "  > " + q.line + "\n  < " + getResultCode(r.ret) + " / " + esc(r.text.substr(0, 120)) + "\n";
     *log += "  telegrams to the bus: ";
-    for (auto& s : c->w->protocol->sent) *log += s + " ";
-    if (c->w->protocol->sent.empty()) *log += "none";
+    for (auto& x : sent) *log += x + " ";
+    if (sent.empty()) *log += "none";
+    *log += string("\n  message had stored data before the request: ") + (hadData ? "yes" : "no");
     *log += "\n  poll priority of message: " + std::to_string(rm->getPollPriority()) + (inPollQueue(c, rm) ? " (queued)" : "") + "\n";
   }
   return rule;
 }
 
 // one listing / sink case
-static string runSetCase(Ctx* c, const Acl& a, const string& auth, const string& form, string* log) {
+static string runSetCase(Ctx* c, const Acl& a, const string& auth, const string& form, const string& hist, string* log) {
   applyAcl(c, a);
   resetState(c);
+  bool withData = hist == "fresh";
+  if (withData) for (size_t i = 0; i < c->d.levels.size(); i++) { busUpdate(c, i, false); busUpdate(c, i, true); }
   string eff = auth == "ok" ? a.U : effDefault(a);
   bool http = form.compare(0, 4, "http") == 0;
   bool mayRefuse = http && auth != "none" && auth != "ok";
   string user;
-  if (log) *log += "default levels (" + a.dsrc + "): \"" + effDefault(a) + "\"; user u levels: \"" + a.U + "\"; auth=" + auth + "; form=" + form + "\n";
+  if (log) *log += "default levels (" + a.dsrc + "): \"" + effDefault(a) + "\"; user u levels: \"" + a.U + "\"; auth=" + auth + "; form=" + form + "; history=" + hist + (withData ? " (every read and write message was just seen on the bus)" : "") + "\n";
   set<string> want, got;
+  string leak;
   string rule;
   size_t n = c->d.levels.size();
   if (form == "sink") {
@@ -350,24 +429,35 @@ static string runSetCase(Ctx* c, const Acl& a, const string& auth, const string&
       if (sink.m_updatedMessages.count(m->getKey())) got.insert(m->getName());
     }
     if (log) *log += "  sink for user \"" + sinkUser + "\" got levels \"" + sink.m_levels + "\"\n";
-  } else if (form == "findall" || form == "findw") {
+  } else if (form == "findall" || form == "findw" || form == "finddata") {
     if (!tcpAuth(c, auth, &user, log)) return "auth-user";
-    Reply r = tcp(c->w, form == "findall" ? "find -c c" : "find -w -c c", &user);
+    Reply r = tcp(c->w, form == "findall" ? "find -c c" : form == "findw" ? "find -w -c c" : "find -a -d -c c", &user);
     got = namesInFind(r.text);
-    for (size_t i = 0; i < n; i++) if (refGranted(c->d.levels[i], eff)) {
-      if (form == "findall") { want.insert(msgName('m', i)); want.insert(msgName('p', i)); } else want.insert(msgName('w', i));
+    for (size_t i = 0; i < n; i++) {
+      bool g = refGranted(c->d.levels[i], eff);
+      if (g) {
+        if (form == "findall") { want.insert(msgName('m', i)); want.insert(msgName('p', i)); }
+        else if (form == "findw") want.insert(msgName('w', i));
+        else if (withData) { want.insert(msgName('m', i)); want.insert(msgName('w', i)); }
+      } else if (withData && r.text.find("= " + std::to_string(i + 101)) != string::npos) {
+        leak = msgName('m', i);
+      }
     }
   } else if (form == "httpall") {
     string q = authQuery(auth);
     Reply r = httpGet(c->w, "/data/c?write=1" + (q.empty() ? "" : "&" + q));
     int st = httpStatus(r.text);
     got = namesInJson(httpBody(r.text), c);
-    for (size_t i = 0; i < n; i++) if (refGranted(c->d.levels[i], eff)) { want.insert(msgName('m', i)); want.insert(msgName('w', i)); want.insert(msgName('p', i)); }
+    for (size_t i = 0; i < n; i++) {
+      if (refGranted(c->d.levels[i], eff)) { want.insert(msgName('m', i)); want.insert(msgName('w', i)); want.insert(msgName('p', i)); }
+      else if (withData && httpBody(r.text).find("\"value\": " + std::to_string(i + 101) + "}") != string::npos) leak = msgName('m', i);
+    }
     if (log) *log += "  status " + std::to_string(st) + "\n";
     if (mayRefuse && (st == 403 || st == 401) && got.empty()) want.clear();
   }
   if (!c->w->protocol->sent.empty()) rule = "listing-bus-access";
-  for (auto& g : got) if (!want.count(g)) rule = "denied-listed";
+  for (auto& g : got) if (!want.count(g)) rule = withData ? "denied-listed-from-cache" : "denied-listed";
+  if (!leak.empty()) rule = "denied-value-leaked";
   if (rule.empty()) for (auto& x : want) if (!got.count(x)) rule = "granted-not-listed";
   if (log) *log += "  expected: " + join(want) + "\n  observed: " + join(got) + "\n";
   return rule;
@@ -404,9 +494,9 @@ static int replay(const string& cs) {
       printf("Message(level=\"%s\").hasLevel(\"%s\") impl=%d reference=%d\n", c->d.levels[mi].c_str(), list.c_str(), impl, ref);
       rule = impl == ref ? "" : "hasLevel";
     } else if (k == "e2e") {
-      rule = runCase(c, a, m["auth"], strtoul(m["mi"].c_str(), nullptr, 10), m["form"], &log);
+      rule = runCase(c, a, m["auth"], strtoul(m["mi"].c_str(), nullptr, 10), m["form"], m.count("hist") ? m["hist"] : "none", &log);
     } else if (k == "set") {
-      rule = runSetCase(c, a, m["auth"], m["form"], &log);
+      rule = runSetCase(c, a, m["auth"], m["form"], m.count("hist") ? m["hist"] : "none", &log);
     }
     fputs(log.c_str(), stdout);
     rmTree(c->w->tmp);
@@ -456,7 +546,11 @@ int main(int argc, char** argv) {
   vector<string> l2 = listsOf(d.e2eNames, 2, ';');
   vector<string> l3 = listsOf(d.e2eNames, 3, ';');
   vector<Acl> acls;
-  for (const char* dsrc : {"acl", "opt"}) for (auto& D : l2) for (auto& U : l2) acls.push_back(Acl{dsrc, D, U});
+  vector<string> l1 = listsOf(d.e2eNames, 1, ';');
+  for (auto& D : l2) for (auto& U : l2) acls.push_back(Acl{"acl", D, U});
+  // default list given by --accesslevel: quick crosses it with all user lists, thorough (12 names) with the
+  // user lists of <=1 name only (the option is just another source of the same default entry)
+  for (auto& D : l2) for (auto& U : (set == "t" ? l1 : l2)) acls.push_back(Acl{"opt", D, U});
   for (auto& U : l3) acls.push_back(Acl{"none", "", U});
   uint64_t nAcl = 0;
   bool sampled = false;
@@ -467,41 +561,46 @@ int main(int argc, char** argv) {
     R.state("acl|" + caseOfAcl(a));
     for (const char* auth : AUTHS) {
       for (size_t mi = 0; mi < d.levels.size(); mi++) {
-        for (const char* form : FORMS) {
-          string rule = runCase(c, a, auth, mi, form, nullptr);
-          R.evaluations++; R.tracesValidated++; R.transitions += 2;
+        for (const char* form : FORMS) for (const char* hist : HISTS) {
+          string rule = runCase(c, a, auth, mi, form, hist, nullptr);
+          R.evaluations++; R.tracesValidated++; R.transitions += 3;
           string eff = string(auth) == "ok" ? a.U : effDefault(a);
-          R.distinct(string("e2e|") + form + "|" + auth + "|" + d.levels[mi] + "|" + eff + "|" + a.dsrc);
+          R.distinct(string("e2e|") + form + "|" + hist + "|" + auth + "|" + d.levels[mi] + "|" + eff + "|" + a.dsrc);
           R.count(refGranted(d.levels[mi], eff) ? "e2e_granted" : "e2e_denied");
           if (!rule.empty()) {
-            string cs = "k=e2e;set=" + set + ";" + caseOfAcl(a) + ";auth=" + auth + ";mi=" + std::to_string(mi) + ";form=" + form;
+            string cs = "k=e2e;set=" + set + ";" + caseOfAcl(a) + ";auth=" + auth + ";mi=" + std::to_string(mi) + ";form=" + form + ";hist=" + hist;
             R.violation("C16/" + rule + "/" + form + "/" + levelClass(d.levels[mi], eff),
-                        "level \"" + d.levels[mi] + "\" vs effective list \"" + eff + "\" (" + auth + "), form " + form, cs);
+                        "level \"" + d.levels[mi] + "\" vs effective list \"" + eff + "\" (" + auth + "), form " + form + ", history " + hist, cs);
           }
         }
       }
-      for (const char* form : SETFORMS) {
-        string rule = runSetCase(c, a, auth, form, nullptr);
+      for (const char* form : SETFORMS) for (const char* hist : SETHISTS) {
+        string rule = runSetCase(c, a, auth, form, hist, nullptr);
         R.evaluations++; R.tracesValidated++; R.transitions++;
         if (!rule.empty()) {
-          string cs = "k=set;set=" + set + ";" + caseOfAcl(a) + ";auth=" + auth + ";form=" + form;
-          R.violation("C16/" + rule + "/" + form + "/listing", "listing differs from the granted set, form " + string(form) + ", auth " + auth, cs);
+          string cs = "k=set;set=" + set + ";" + caseOfAcl(a) + ";auth=" + auth + ";form=" + form + ";hist=" + hist;
+          R.violation("C16/" + rule + "/" + form + "/listing", "listing differs from the granted set, form " + string(form) + ", auth " + auth + ", history " + hist, cs);
         }
       }
     }
     if (!sampled && a.dsrc == "acl" && a.D == "a" && a.U == "ab;b") {
       sampled = true;
       string log;
-      runCase(c, a, "ok", std::min<size_t>(4, d.levels.size() - 1), "readname", &log);
+      runCase(c, a, "ok", std::min<size_t>(4, d.levels.size() - 1), "readname", "none", &log);
       R.sample("e2e: " + log);
       log.clear();
-      runSetCase(c, a, "bad", "findall", &log);
+      runCase(c, a, "none", std::min<size_t>(4, d.levels.size() - 1), "readhex", "fresh", &log);
+      R.sample("e2e: " + log);
+      log.clear();
+      runSetCase(c, a, "bad", "findall", "none", &log);
       R.sample("e2e: " + log);
     }
   }
   R.count("acls", nAcl);
-  R.note("ACL space: default entry from ACL '*' row or --accesslevel x user entry, lists of <=2 names (" +
-         std::to_string(l2.size()) + " each) plus no default entry x user lists of <=3 names (" + std::to_string(l3.size()) + ")");
+  R.note("ACL space: " + std::to_string(acls.size()) + " ACLs = default entry from the ACL '*' row x user entry (lists of <=2 names, " +
+         std::to_string(l2.size()) + " each), default entry from --accesslevel x user entry (" + std::to_string(set == "t" ? l1.size() : l2.size()) +
+         " user lists), no default entry x user lists of <=3 names (" + std::to_string(l3.size()) + "); x 5 auth states x " +
+         std::to_string(d.levels.size()) + " levels x 16 forms x 5 histories + 5 listing forms x 2 histories");
   rmTree(c->w->tmp);
   R.write(A.out);
   return 0;
